@@ -45,6 +45,7 @@ func (n Tree[T]) String() string {
 // are copied as-is, so no pointers inside your value type gets a deep clone.
 func (n *Tree[T]) Clone() Tree[T] {
 	var clone Tree[T]
+	clone.compare = n.compare
 	n.WalkPreOrder(clone.Add)
 	return clone
 }
